@@ -1,10 +1,12 @@
 // C02: iterator positioning matches the model for every sequence of positioning calls.
 //
-// For every LSM state of a deterministic, capped selection (all write histories of depth <= 3 over a
-// 15-symbol alphabet on testkeys keys with suffixes, two DB configurations, three bases, plus four
-// hand-built shapes) and every initial bound pair, EVERY sequence of <= d calls of the positioning
-// alphabet whose result the API defines is executed on a fresh pebble.Iterator (points only) and
-// compared, call by call, with the iterator model of model_test.go.
+// For every LSM state of a deterministic, capped selection (states_test.go: all write histories of
+// depth <= 3 over a 15-symbol alphabet on testkeys keys with suffixes, three bases, a pairwise
+// feature cover of the reached shape classes, plus four hand-built shapes, each under two DB
+// configurations) and every initial bound pair, EVERY sequence of exactly d calls of the
+// positioning alphabet whose results the API defines is executed on a fresh pebble.Iterator (points
+// only) and compared, call by call, with the iterator model of model_test.go. The model's state
+// machine decides which calls are defined next (model.legal lists the exclusions).
 package c02
 
 import (
@@ -187,7 +189,6 @@ type local struct {
 	outcomes [8]int64
 	states   map[uint64]struct{}
 	nontriv  map[uint64]struct{}
-	ntSeqs   int64
 }
 
 const (
@@ -454,7 +455,7 @@ func runSeq(t *keytab, st *stateRT, lo, hi int, calls []ccall, lc *local, trace 
 // nontrivial rule for a 2-call prefix (every such prefix is extended by every defined call): the
 // state holds an internal key that is not visible, and the two calls contain a direction switch, a
 // limit call, a relative move in prefix mode, or a bounds change followed by a reposition.
-func nontrivialPrefix(st *stateRT, a, b *ccall, m *model) bool {
+func nontrivialPrefix(st *stateRT, a, b *ccall) bool {
 	if !st.invisible {
 		return false
 	}
@@ -541,7 +542,7 @@ func (e *explorer) rec(n int) {
 	if n < e.depth || e.depth < 3 {
 		e.lc.states[vlib.Hash(e.sid, m.lo, m.hi, m.cursorString())] = struct{}{}
 	}
-	if n == 2 && nontrivialPrefix(e.st, &e.seq[0], &e.seq[1], m) {
+	if n == 2 && nontrivialPrefix(e.st, &e.seq[0], &e.seq[1]) {
 		e.lc.nontriv[vlib.Hash(e.sid, e.bi, e.seq[0], e.seq[1])] = struct{}{}
 	}
 	if n == e.depth {
